@@ -1,57 +1,58 @@
 (* DeterminismAccept.v — C03 for PARSED programs of the core fragment with `init_linear` derived from
-   acceptance (proofs/InitAccept.v): the premises left are computable conditions on the SOURCE text
-   (rt_syn_ok: names as the parser makes them; core_src_b: no drop / split / droppable forward, one
-   provider name per process, no empty case) and in_fragment (no assumed names). *)
+   acceptance (proofs/InitAccept.v): the premises left are: the text parses, the program is accepted,
+   it is closed (in_fragment: no assumed names), and the computable condition core_src_b on the
+   SOURCE (no drop / split / droppable forward, one provider name per process, no empty case).
+   prog_syn_ok and raw_ok are theorems for parsed programs (ParseSynOk, ParseRaw). *)
 From stdpp Require Import gmap strings sorting.
 Require Import Grits.Base Grits.ModeDefs Grits.Modes Grits.STypes Grits.Forms Grits.Subst Grits.TcDeps Grits.Expand
                Grits.Tc Grits.TcTop Grits.spec.SynOk Grits.Runtime Grits.RuntimeFootprint
                Grits.spec.RtTyping Grits.spec.Topo Grits.proofs.RtSafety
                Grits.proofs.RtInit Grits.proofs.RtTheorems Grits.proofs.RtStaticCheck
-               Grits.proofs.RtTcSyn Grits.proofs.ParseSynOk Grits.proofs.RtTheoremsTc.
+               Grits.proofs.RtTcSyn Grits.proofs.ParseSynOk Grits.proofs.ParseRaw Grits.proofs.RtTheoremsTc.
 Require Import Grits.proofs.RuntimeFacts Grits.proofs.Diamond Grits.proofs.Determinism Grits.proofs.AsyncSync
                Grits.proofs.TopoLin Grits.proofs.TopoStep Grits.proofs.TopoReach Grits.proofs.DeterminismTc
                Grits.proofs.LinBridge Grits.proofs.InitAccept.
 
 Theorem init_linear_parsed txt p p' :
-  parse_string txt = POk p -> typecheck p = Accept p' -> in_fragment p' -> rt_syn_ok p = true ->
+  parse_string txt = POk p -> typecheck p = Accept p' -> in_fragment p' ->
   core_src_b p = true -> init_linear p'.
-Proof. intros Hp Ha Hf RS Hc. exact (init_linear_accept p p' Ha Hf (parse_syn_ok _ _ Hp) RS Hc). Qed.
+Proof. intros Hp Ha Hf Hc. exact (init_linear_accept p p' Ha Hf (parse_syn_ok _ _ Hp) (parse_raw_ok _ _ Hp) Hc). Qed.
 
 Theorem topo_runs_core_accept txt p p' :
-  parse_string txt = POk p -> typecheck p = Accept p' -> in_fragment p' -> rt_syn_ok p = true ->
+  parse_string txt = POk p -> typecheck p = Accept p' -> in_fragment p' ->
   core_src_b p = true -> topo_runs p'.
 Proof.
-  intros Hp Ha Hf RS Hc.
-  exact (topo_runs_core_tc p p' Ha Hf (parse_syn_ok _ _ Hp) RS (init_linear_parsed txt p p' Hp Ha Hf RS Hc)).
+  intros Hp Ha Hf Hc.
+  exact (topo_runs_core_tc p p' Ha Hf (parse_syn_ok _ _ Hp) (parse_raw_ok _ _ Hp) (init_linear_parsed txt p p' Hp Ha Hf Hc)).
 Qed.
 
 Theorem determinism_core_accept txt p p' md pick1 pick2 f1 f2 t1 :
-  parse_string txt = POk p -> typecheck p = Accept p' -> in_fragment p' -> rt_syn_ok p = true ->
+  parse_string txt = POk p -> typecheck p = Accept p' -> in_fragment p' ->
   core_src_b p = true -> is_np md = false ->
   exec_run f1 pick1 md (p_types p') (p_funs p') (init_config p') = RQuiescent t1 -> (f1 <= f2)%nat ->
   exists t2, exec_run f2 pick2 md (p_types p') (p_funs p') (init_config p') = RQuiescent t2 /\
              cfg_equiv t2 t1 /\ labels t2 ≡ₚ labels t1.
 Proof.
-  intros Hp Ha Hf RS Hc.
-  exact (determinism_core_parsed txt p p' md pick1 pick2 f1 f2 t1 Hp Ha Hf RS (init_linear_parsed txt p p' Hp Ha Hf RS Hc)).
+  intros Hp Ha Hf Hc.
+  exact (determinism_core_parsed txt p p' md pick1 pick2 f1 f2 t1 Hp Ha Hf (init_linear_parsed txt p p' Hp Ha Hf Hc)).
 Qed.
 
 Theorem async_sync_agree_core_accept txt p p' pick1 f1 t1 :
-  parse_string txt = POk p -> typecheck p = Accept p' -> in_fragment p' -> rt_syn_ok p = true ->
+  parse_string txt = POk p -> typecheck p = Accept p' -> in_fragment p' ->
   core_src_b p = true ->
   exec_run f1 pick1 Sync (p_types p') (p_funs p') (init_config p') = RQuiescent t1 ->
   exists n, forall pick2 f2, (n < f2)%nat ->
     exists t2, exec_run f2 pick2 Async (p_types p') (p_funs p') (init_config p') = RQuiescent t2 /\ labels t2 ≡ₚ labels t1.
 Proof.
-  intros Hp Ha Hf RS Hc.
-  exact (async_sync_agree_core_parsed txt p p' pick1 f1 t1 Hp Ha Hf RS (init_linear_parsed txt p p' Hp Ha Hf RS Hc)).
+  intros Hp Ha Hf Hc.
+  exact (async_sync_agree_core_parsed txt p p' pick1 f1 t1 Hp Ha Hf (init_linear_parsed txt p p' Hp Ha Hf Hc)).
 Qed.
 
 (* the premises, decided on a program text *)
 Definition core_accept_text (txt : string) : bool :=
   match parse_string txt with
   | POk p => match typecheck p with
-             | Accept p' => in_fragment_b p' && rt_syn_ok p && core_src_b p
+             | Accept p' => in_fragment_b p' && core_src_b p
              | _ => false
              end
   | _ => false
@@ -66,7 +67,7 @@ Theorem core_accept_sound txt : core_accept_text txt = true ->
 Proof.
   unfold core_accept_text. destruct (parse_string txt) as [p| | |] eqn:Ep; try discriminate.
   destruct (typecheck p) as [p'| | |] eqn:Et; try discriminate.
-  rewrite !andb_true_iff. intros [[Hf RS] Hc]. apply in_fragment_b_sound in Hf.
+  rewrite !andb_true_iff. intros [Hf Hc]. apply in_fragment_b_sound in Hf.
   exists p, p'. split; [done|]. split; [done|]. split; [eapply init_linear_parsed; eauto|].
   intros md pick1 pick2 f1 f2 t1 Hnp. eapply determinism_core_accept; eauto.
 Qed.
